@@ -186,6 +186,9 @@ def gen_cases(chk):
 
 def case_line(c):
     enc, lim, pin, (name, hist) = c
+    # PreBlocking is pinned with a plug command per source node; a re-sync that re-creates tasks on other nodes cannot keep that pin
+    if pin == 'pb' and ' sync ' in hist and not hist.endswith(RESYNC):
+        pin = 'psh'
     return '%s %d %s | %s' % (enc, lim, pin, hist)
 
 
